@@ -119,6 +119,25 @@ CHECKS = {
             "construction or solve() and never a solved model; conversely random in-domain instances and a corpus (one-node graphs, isolated "
             "nodes, single edge) must construct and solve without any exception.",
             "a non-conserving flow is strict only for the classes that document it; a node without the attribute is 'ignored', not invalid; " + TRUST, "DESIGN.md 4/C19"),
+    "C05": ("exploration", "runtime differential monitor across option settings on one input (exception / solved / objective) + solve-statistics fingerprint showing which settings changed the MILP",
+            "For every class that accepts optimization_options, one in-domain input is solved under the all-off baseline, every documented flag "
+            "alone, all-on, random combinations and the library defaults (thorough: full cross product up to 96 settings, documented-illegal "
+            "combinations removed); every setting must agree with the baseline in raised exception, solved status and objective. The evidence "
+            "counts how many settings actually changed the model (columns / fixed variables / greedy / number of solver calls).",
+            "trusted edges are the ones the models supply; settings hitting the 8 s solver limit are not compared; " + TRUST, "DESIGN.md 4/C05"),
+    "C10": ("exploration", "runtime monitors on get_solution/get_objective_value with and without a feature + coverage recomputation, exact constrained optimum (z3), metamorphic ignore/scale/garbage equivalence, start/end monotonicity",
+            "Constraints: every constraint of every solved model (all 12 classes, node and edge mode, edge-count and length coverage) must be "
+            "contained in a single returned route; for DAG LAE/MPE the objective equals the exact optimum over the constrained solutions. "
+            "Ignoring: ignore(e), scale 0, ignore with garbage / zero / missing weight must agree in (solved, objective). Starts/ends: declaring an "
+            "existing source/sink changes nothing; a real additional start/end never raises, never makes a solved instance unsolved or worse, "
+            "and no route starts/ends anywhere else.",
+            "8 s solver limit (no verdict when hit); " + TRUST, "DESIGN.md 4/C10"),
+    "C11": ("exploration", "runtime differential monitor: node mode vs edge mode on the harness's own node expansion + NodeExpandedDiGraph round-trip monitors",
+            "All 12 model classes and MinErrorFlow are solved in node mode and, independently, as edge-weighted instances on an expansion built "
+            "by harness code (different naming, all original edges ignored, constraints / ignore / scaling / starts / ends translated): solved "
+            "status and objective must agree, node-mode routes must be routes of the original graph, a node without the attribute must behave "
+            "like an ignored node with a value; NodeExpandedDiGraph expand/condense round trips for paths, constraints, elements and graphs.",
+            "8 s solver limit (no verdict when hit); " + TRUST, "DESIGN.md 4/C11"),
 }
 
 NOT_YET = {}
